@@ -456,6 +456,23 @@ func (s *appState) bankMoves(evs sdk.Events) string {
 	return strings.Join(parts, ",")
 }
 
+var addrLikeRe = regexp.MustCompile(`\{\d{9,}\}|0x[cC]0[0-9a-fA-F]{8}|\(0x[0-9a-fA-F]{6,}\)`)
+
+// orbiterEventsAddrLike reports whether a value of one of the orbiter's own events looks like the address of an object.
+func orbiterEventsAddrLike(evs sdk.Events) string {
+	for _, e := range evs {
+		if !strings.HasPrefix(e.Type, "noble.orbiter.") {
+			continue
+		}
+		for _, a := range e.Attributes {
+			if addrLikeRe.MatchString(a.Value) {
+				return "1"
+			}
+		}
+	}
+	return "0"
+}
+
 func eventsHash(evs sdk.Events) string {
 	h := sha256.New()
 	for _, e := range evs {
@@ -464,7 +481,12 @@ func eventsHash(evs sdk.Events) string {
 		for _, a := range e.Attributes {
 			h.Write([]byte(a.Key))
 			h.Write([]byte{1})
-			h.Write([]byte(maskPtr(a.Value)))
+			v := a.Value
+			if !strings.HasPrefix(e.Type, "noble.orbiter.") {
+				// text of other modules (ibc-go prints a pointer in one of its own errors) is masked; the orbiter's own events are not
+				v = maskPtr(v)
+			}
+			h.Write([]byte(v))
 			h.Write([]byte{2})
 		}
 	}
@@ -490,8 +512,8 @@ func (s *appState) recvLine(d *driver, stack porttypes.IBCModule, f []string, wi
 	if obs.ack == "panic" {
 		pattr = panicAttribution(obs.panicMsg)
 	}
-	return fmt.Sprintf("ack=%s src=%s bal=%s sup=%s req=%s ev=%s mv=%s st=%s ackh=%s evh=%s pattr=%s acktxt=%s", obs.ack, obs.src, bal, sup, req, ev, mv,
-		s.stateStr(s.env.Ctx), hex.EncodeToString(ackh[:8]), eventsHash(obs.events), pattr, hxb(obs.ackBytes))
+	return fmt.Sprintf("ack=%s src=%s bal=%s sup=%s req=%s ev=%s mv=%s st=%s ackh=%s evh=%s evaddr=%s pattr=%s acktxt=%s", obs.ack, obs.src, bal, sup, req, ev, mv,
+		s.stateStr(s.env.Ctx), hex.EncodeToString(ackh[:8]), eventsHash(obs.events), orbiterEventsAddrLike(obs.events), pattr, hxb(obs.ackBytes))
 }
 
 func (s *appState) op(d *driver, f []string) string {
